@@ -265,14 +265,22 @@ Checks strengthened because a seeded change was first missed:
 
 ### 9.7 Behaviour-preserving changes (false-alarm trials)
 
-Sub-agents given all twenty statements produced two rounds of eight refactors
-that keep every property (E1..E8, F1..F8, plus each round's eight combined: ALL,
-FALL).  The second round was asked for the kinds of change the later monitors
+Sub-agents given all twenty statements produced three rounds of eight refactors
+that keep every property (E1..E8, F1..F8, G1..G8, plus each round's eight
+combined: ALL, FALL, GALL).  The second round was asked for the kinds of change the later monitors
 could wrongly flag: `posix_memalign` allocation, word-wise counter arithmetic,
 correct bulk paths, restructured CPU detection, Mantis parallel batches staged
 through a local buffer (with aliased tweak arrays), zero-length early-outs after
 validation plus `assert()`s and `__OPTIMIZE_SIZE__` loops, new stdio buffering
-in the tools, and a restructured Arduino CTR.  `tools/run_equiv.py` applies each
+in the tools, and a restructured Arduino CTR.  The third round targeted the
+monitors added in rounds 4-7: contexts obtained with `mmap` (best-effort `mlock`,
+wiped, `munmap`), a CPU probe that also reads the vendor string and leaf-7
+layout, generated `static const` tables, tools on `open/read/write` with
+`O_TRUNC` and a strict `-b` parser, safely copyable Arduino classes, Mantis mode
+and rounds narrowed after validation, per-object caches with a dirty flag, and a
+wipe helper in its own file that survives `-flto`.  One of them (G1: `mmap` with
+a fall-back to `calloc`) exposed a check that demanded more than C16 states; the
+check was corrected (section 9.4) and G1 is silent since.  `tools/run_equiv.py` applies each
 to a scratch worktree and runs every check (quick tier): all must exit 0.
 Results are kept under `seeded/equivalent/<name>/`.
 
